@@ -9,6 +9,7 @@ import Emboss.Lemmas.Lr1Examples
 import Emboss.Lemmas.Lr1Fast
 import Emboss.Lemmas.Lr1Term
 import Emboss.Lemmas.Lr1Gen
+import Emboss.Lemmas.Lr1TermCex
 namespace Emboss.Lr1
 
 /-- **The compiled validator decides `Valid`.**  `validFast` (hash-set membership; what the
@@ -78,6 +79,16 @@ over `B` reduces `B → ε` on `c` and returns to itself) — hence the separate
 theorem C08_terminates {A : Automaton} (hT : TermOK A) (w : List Token) :
     ∃ fuel, run A fuel w ≠ .outOfFuel :=
   run_terminates hT w
+
+/-- **Counterexample: `Valid` alone does not give termination.**  A hand-built table for
+`S → a | A c ; A → B A ; B → ε` whose certificate carries a closed but not least FIRST table
+(`c ∈ FIRST(A)`) satisfies `Valid`, fails the termination analysis, and on the input `c` is
+still running after 200 steps (it reduces `B → ε` on `c` forever).  Not an output of the real
+generator (which computes least FIRST sets); it shows why `C08_terminates` needs `TermOK`. -/
+theorem C08_valid_not_terminating_counterexample :
+    Valid TermCex.G TermCex.A TermCex.C ∧ ¬ TermOK TermCex.A ∧
+      run TermCex.A 200 [⟨6, 0⟩] = .outOfFuel :=
+  ⟨TermCex.valid, TermCex.notTermOK, TermCex.loops⟩
 
 /-- **Total correctness.**  Over tables that validate and pass the termination analysis every
 token list is decided: with enough fuel the run either accepts with a derivation of `w`, or
